@@ -51,6 +51,7 @@ type vpEntry struct {
 }
 
 type vpRec struct {
+	Via      string    `json:"via"`
 	Ev       string    `json:"ev"`
 	Hist     int       `json:"hist"`
 	Step     int       `json:"step"`
@@ -559,7 +560,19 @@ func vpHistory(t *testing.T, penc, eenc *json.Encoder, hist int, rng *rand.Rand,
 		r.Txns = vpDescribe(N.head(t).Head, coin.Transactions{txn}, badSig, kinds)
 		if user {
 			r.Kind, r.P = "user", vpP(params.UserVerifyTxn)
-			known, _, _, err := N.v.InjectUserTransaction(txn)
+			var known bool
+			var err error
+			if rng.Intn(2) == 0 {
+				known, _, _, err = N.v.InjectUserTransaction(txn)
+			} else {
+				// the entry point the daemon gateway uses for inject-and-broadcast: the same rules inside a caller's update
+				r.Via = "WithUpdateTx"
+				err = N.v.WithUpdateTx("verif inject", func(tx *dbutil.Tx) error {
+					var e2 error
+					known, _, _, e2 = N.v.InjectUserTransactionTx(tx, txn)
+					return e2
+				})
+			}
 			r.Res = vpClass(err)
 			if err != nil {
 				r.Err = err.Error()
@@ -917,6 +930,56 @@ func vpHistory(t *testing.T, penc, eenc *json.Encoder, hist int, rng *rand.Rand,
 		if rng.Intn(3) == 0 {
 			emitView(F, "F", "round")
 		}
+	}
+	// ---- the last block through the publisher's own entry point: creation and execution in one commit, wall-clock block time
+	if !top && hist%2 == 0 {
+		uxs, err := P.v.GetAllUnspentOutputs()
+		if err != nil {
+			t.Fatal(err)
+		}
+		sort.Slice(uxs, func(i, j int) bool { return uxs[i].Hash().Hex() < uxs[j].Hash().Hex() })
+		nfresh := 0
+		for _, ux := range uxs {
+			if _, ok := keyOf[ux.Body.Address]; !ok || tieAddr[ux.Body.Address] || ux.Body.Address == owners[3].addr || nfresh >= 3 {
+				continue
+			}
+			if txn, ok := mk(P, []string{"normal", "fee-exact", "zero-fee"}[rng.Intn(3)], []coin.UxOut{ux}, crt.BurnFactor); ok {
+				inject(P, txn, false)
+				nfresh++
+			}
+		}
+		r := record(P, "create_execute")
+		r.P, r.MaxBlock, r.MaxTxns = vpP(crt), cfg.MaxBlockTransactionsSize, coin.MaxBlockTransactions
+		pre := P.state(t)
+		sb, cerr := P.v.CreateAndExecuteBlock()
+		r.Post, _ = P.poolEntries(t)
+		if cerr != nil {
+			r.Res, r.Err = "none", cerr.Error()
+			emit(r)
+		} else {
+			r.Res = "ok"
+			for _, txn := range sb.Body.Transactions {
+				r.Hashes = append(r.Hashes, txn.Hash().Hex())
+			}
+			emit(r)
+			e := vlEdge{Hist: hist, Step: step, Mut: "created-pub", Volume: vlLimbs(volume), Pre: pre, Blk: vlDescribe(sb, coin.BlockHeader{}, true, true, nil), Res: "accepted"}
+			for i := range e.Blk.Txns {
+				e.Blk.Txns[i].SigsOK = !badSig[e.Blk.Txns[i].Hash]
+			}
+			step++
+			e.Post = P.state(t)
+			if st, _ := P.v.GetSignedBlockBySeq(e.Post.HeadSeq); st != nil {
+				e.Stored = vlStored{SigOK: st.VerifySignature(pub) == nil, Hash: st.HashHeader().Hex()}
+			}
+			if err := eenc.Encode(e); err != nil {
+				t.Fatal(err)
+			}
+			if !offer(F, "created", sb) {
+				return
+			}
+		}
+		emitView(P, "P", "after-own-block")
+		emitView(F, "F", "after-own-block")
 	}
 	// ---- rebuild: the derived data is dropped in the database file, the node restarted; every view must be the same
 	if hist%2 == 0 {
